@@ -356,7 +356,7 @@ def run(ctx):
     if q:
         knobs = dict(thorough="FALSE", SS=1, SD=10, S1=6, SE=10, S2=14, SQ=8, Off=off, FS=1)
     else:
-        knobs = dict(thorough="TRUE", SS=5, SD=12, S1=8, SE=12, S2=24, SQ=6, Off=off, FS=3)
+        knobs = dict(thorough="TRUE", SS=3, SD=8, S1=6, SE=10, S2=20, SQ=5, Off=off, FS=3)
     desc, groups, feats, ncases = enumerate_cases(ctx, knobs, "main")
     for cls in REQUIRED:
         if feats.get(cls, 0) == 0:
